@@ -15,7 +15,7 @@ import types
 import numpy as np
 import z3
 
-from .values import (INTDOM, MUL, And, NeedConcrete, Not, Num, Or, OutOfBounds, PathRaise, SBool, SInt, Unsupported,
+from .values import (INTDOM, MUL, And, NeedConcrete, Not, Num, Or, OutOfBounds, PathRaise, Poison, SBool, SInt, Unsupported,
                      Xor, _b, has_sym, is_sym, isfinite, isnan, ite, np_minmax, py_max2, py_min2, tighten, tz, vec1,
                      vec2, wrapb)
 
@@ -103,6 +103,11 @@ class Unmergeable:
         raise NeedConcrete(object.__getattribute__(self, '_why'))
 
 
+class _NdMethod:
+    def __init__(self, base, attr):
+        self.base, self.attr = base, attr
+
+
 class Stub:
     """harness-provided replacement for a repo function (listed in the evidence)"""
     def __init__(self, fn, name):
@@ -135,8 +140,15 @@ class NPModel:
     def isfinite(self, x): return isfinite(x)
     def isnan(self, x): return isnan(x)
 
+    def _dt(self, dtype):
+        it = self._it
+        for fn, t in ((it.b_bool, bool), (it.b_int, np.int64), (it.b_float, np.float64)):
+            if dtype == fn:
+                return np.dtype(t)
+        return np.dtype(dtype)
+
     def _alloc(self, shape, val, dtype):
-        dt = np.dtype(dtype)
+        dt = self._dt(dtype)
         if isinstance(shape, (Num, SBool, SInt)) or (isinstance(shape, tuple) and any(is_sym(s) for s in shape)):
             raise NeedConcrete(shape)
         out = _arr_obj(shape, val)
@@ -144,11 +156,11 @@ class NPModel:
         return out
 
     def zeros(self, shape, dtype=np.float64):
-        dt = np.dtype(dtype)
+        dt = self._dt(dtype)
         return self._alloc(shape, False if dt.kind == 'b' else (0 if dt.kind in 'iu' else 0.0), dt)
 
     def ones(self, shape, dtype=np.float64):
-        dt = np.dtype(dtype)
+        dt = self._dt(dtype)
         return self._alloc(shape, True if dt.kind == 'b' else (1 if dt.kind in 'iu' else 1.0), dt)
 
     def empty(self, shape, dtype=np.float64):
@@ -912,7 +924,9 @@ class Interp:
         if isinstance(t, (ast.Tuple, ast.List)):
             vs = list(v)
             if len(vs) != len(t.elts):
-                raise Unsupported("unpack length mismatch")
+                if g is True:
+                    raise PathRaise(ValueError, f"not enough/too many values to unpack (expected {len(t.elts)}, got {len(vs)})")
+                raise Unsupported("unpack length mismatch under a symbolic guard")
             for te, ve in zip(t.elts, vs):
                 self.assign(te, ve, fr, g)
             return
@@ -1132,7 +1146,7 @@ class Interp:
                 if attr == 'dtype' and base.dtype == object:
                     return self.dtype_of(base)
                 return getattr(base, attr)
-            return ('__ndmethod__', base, attr)
+            return _NdMethod(base, attr)
         if self.is_repo_obj(base):
             try:
                 raw = inspect.getattr_static(type(base), attr)
@@ -1327,8 +1341,8 @@ class Interp:
         if isinstance(e, ast.Attribute):
             base = self.expr(e.value, fr, g)
             r = self.getattr_(base, e.attr, fr, g)
-            if isinstance(r, tuple) and len(r) == 3 and r[0] == '__ndmethod__':
-                return getattr(r[1], r[2])
+            if isinstance(r, _NdMethod):
+                return getattr(r.base, r.attr)
             return r
         if isinstance(e, ast.Call):
             return self.call_expr(e, fr, g)
@@ -1386,6 +1400,8 @@ class Interp:
             try:
                 r = base[idx]
             except IndexError as ex:
+                if isinstance(base, np.ndarray) and isinstance(idx, (int, np.integer)):
+                    return Poison(f"read index {idx!r} out of bounds for shape {base.shape}")
                 raise OutOfBounds(f"read index {idx!r} out of bounds for {getattr(base, 'shape', None) or len(base)}") from ex
             if isinstance(base, np.ndarray) and isinstance(idx, (int, np.integer)) and base.ndim == 1 and idx < 0 and False:
                 pass
